@@ -257,7 +257,11 @@ func (w *world) apply(s Step, observe bool) (printed string, isPrint bool) {
 			w.nameN++
 			name = fmt.Sprintf("%s%d", s.Name, w.nameN)
 		}
-		m.NewGlobalDef(name, constant.NewInt(types.I32, int64(s.A%100)))
+		if s.D%3 == 1 { // the free constructor: the caller lists the global itself
+			m.Globals = append(m.Globals, ir.NewGlobalDef(name, constant.NewInt(types.I32, int64(s.A%100))))
+		} else {
+			m.NewGlobalDef(name, constant.NewInt(types.I32, int64(s.A%100)))
+		}
 	case "addFunc":
 		name := ""
 		if s.Name != "" {
@@ -276,7 +280,13 @@ func (w *world) apply(s Step, observe bool) (printed string, isPrint bool) {
 		if s.C%3 == 0 {
 			ret = types.Void
 		}
-		f := m.NewFunc(name, ret, ps...)
+		var f *ir.Func
+		if s.D%3 == 1 { // the free constructor: no parent link, the caller lists the function itself
+			f = ir.NewFunc(name, ret, ps...)
+			m.Funcs = append(m.Funcs, f)
+		} else {
+			f = m.NewFunc(name, ret, ps...)
+		}
 		b := f.NewBlock("")
 		if ret == types.Void {
 			b.NewRet(nil)
@@ -290,7 +300,14 @@ func (w *world) apply(s Step, observe bool) (printed string, isPrint bool) {
 				w.nameN++
 				name = fmt.Sprintf("%s%d", s.Name, w.nameN)
 			}
-			b := f.NewBlock(name)
+			var b *ir.Block
+			if s.D%3 == 1 { // the free constructor
+				b = ir.NewBlock(name)
+				b.Parent = f
+				f.Blocks = append(f.Blocks, b)
+			} else {
+				b = f.NewBlock(name)
+			}
 			b.NewUnreachable() // every state stays printable
 		}
 	case "appendInst", "insertInst":
@@ -646,7 +663,8 @@ func checkHistory(t hx.TB, test string, steps []Step) {
 
 func genHistory(rt *rapid.T) []Step {
 	n := rapid.IntRange(3, 60).Draw(rt, "len")
-	steps := []Step{{Op: "addFunc", A: 2, B: 1, C: 1, Name: ""}, {Op: "addGlobal", Name: ""}}
+	// the first function and global come from the module's builder methods or from the free constructors (D%3 == 1)
+	steps := []Step{{Op: "addFunc", A: 2, B: 1, C: 1, D: rapid.IntRange(0, 2).Draw(rt, "firstFuncTwin"), Name: ""}, {Op: "addGlobal", D: rapid.IntRange(0, 2).Draw(rt, "firstGlobalTwin"), Name: ""}}
 	for i := 0; i < n; i++ {
 		var op string
 		if rapid.IntRange(0, 2).Draw(rt, "observe") == 0 {
